@@ -35,8 +35,34 @@ var rawProg *load.Program
 func runBest(views []*load.Program, r *core.Rule) *core.Ctx {
 	var best *core.Ctx
 	bestBad := -1
-	for _, v := range views {
+	var all []*core.Ctx
+	defer func() {
+		// an obligation that fails in the chosen view but is decided OK under another view of the same program holds
+		if best == nil {
+			return
+		}
+		for i, o := range best.Obs {
+			if o.Verdict == core.OK {
+				continue
+			}
+			for _, other := range all {
+				if other == best {
+					continue
+				}
+				for _, oo := range other.Obs {
+					if oo.Construct == o.Construct && oo.Verdict == core.OK {
+						best.Obs[i] = oo
+					}
+				}
+			}
+		}
+	}()
+	for vi, v := range views {
+		if dbg := os.Getenv("PGOVIEW"); dbg != "" && dbg != fmt.Sprint(vi) {
+			continue
+		}
 		ctx := core.RunRule(v, r)
+		all = append(all, ctx)
 		bad := 0
 		for _, o := range ctx.Obs {
 			if o.Verdict == core.Violation || o.Verdict == core.Lost || o.Verdict == core.Undecided {
